@@ -29,7 +29,7 @@ def check(ctx, m, cfg, props_sel, rule="R-CFORM"):
     insts = [
         ("getNumCells", ["C03"], _getNumCells), ("cellToChildrenSize", ["C04", "C13"], _cellToChildrenSize),
         ("gridPathCellsSize", ["C14"], _gridPathCellsSize), ("maxFaceCount", ["C19"], _maxFaceCount),
-        ("maxGridDiskSize", ["C05", "C12"], _maxGridDiskSize), ("validateChildPos", ["C13"], _validateChildPos),
+        ("maxGridDiskSize", ["C05", "C12"], _maxGridDiskSize), ("validateChildPos", ["C13", "C01"], _validateChildPos),
         ("child-count arithmetic stays 64-bit", ["C13", "C04", "C03"], _narrow), ("cellArea units", ["C08"], _areaUnits), ("edgeLength units", ["C10"], _edgeUnits),
     ]
     n = 0
@@ -258,7 +258,8 @@ def _validateChildPos(m):
                 def cts(argv, mem, cnt=cnt):
                     mem[argv[2]] = cnt
                     return 0
-                models = {"cellToChildrenSize": cts, "isPentagon": lambda a, mem, p=pent: p, "_ipow": _ipow}
+                models = {"cellToChildrenSize": cts, "isPentagon": lambda a, mem, p=pent: p, "_ipow": _ipow,
+                          "_hasChildAtRes": lambda a, mem: int(((a[0] >> 52) & 15) <= ceval._sg(a[1], 32) <= 15)}
                 for pos in sorted({-1, 0, cnt - 1, cnt, cnt + 1, 7 ** d - 1, 7 ** d, -2 ** 63}):
                     e = ceval.Eval(m, f, None, models)
                     h = (pres << 52) | (1 << 59)
